@@ -311,7 +311,167 @@ def maker(path, cls, name):
         raise Untranslatable("%s: writes %r of self" % (what, sorted(st)))
     if sum(1 for n in ast.walk(fn) if isinstance(n, ast.Call) and ast.unparse(n.func) in ("self._add_me", "self._make_me")) != 1:
         raise Untranslatable("%s: the data are set / added more than once" % what)
-    return upd % norm[lsrc], norm[tsrc]
+    return upd % norm[lsrc], norm[tsrc], ("convert" in lsrc or "iu_energy" in lsrc)
+
+
+T_SD_TRY = """
+try:
+    ftype = params["ftype"]
+    if ftype not in CorrelationFunction.allowed_types:
+        raise Exception(H_m1)
+    prms = {}
+    for key in params.keys():
+        if key in self.energy_params:
+            prms[key] = self.convert_energy_2_internal_u(params[key])
+        else:
+            prms[key] = params[key]
+except:
+    raise Exception
+"""
+T_SD_TEMP = """
+if "T" in params.keys():
+    self.temperature = params["T"]
+"""
+SD_TIED = ("OverdampedBrownian", "UnderdampedBrownian", "Underdamped", "B777")
+SD_PINNED = ("CP29",)
+
+
+def dispatch_chain(first_if, own, stale, what):
+    """if ftype == "S": self._make_xxx(ARG, ..) elif ... else: raise   ->  [(S, maker, whose, form)]"""
+    def whose(name, w):
+        if name in own:
+            return "own", own[name]
+        if name == stale:
+            return "stale", "raw"
+        raise Untranslatable("%s: %s is %s, not a component of the loop" % (what, w, name))
+    chain, cur = [], first_if
+    while True:
+        t = cur.test
+        if not (isinstance(t, ast.Compare) and len(t.ops) == 1 and isinstance(t.ops[0], ast.Eq)):
+            raise Untranslatable("%s: dispatch test %s" % (what, ast.unparse(t)))
+        a, b = t.left, t.comparators[0]
+        if isinstance(a, ast.Constant):
+            a, b = b, a
+        if not (isinstance(a, ast.Name) and a.id == "ftype" and isinstance(b, ast.Constant) and isinstance(b.value, str)):
+            raise Untranslatable("%s: dispatch test %s" % (what, ast.unparse(t)))
+        bd = _strip(cur.body)
+        if not (len(bd) == 1 and isinstance(bd[0], ast.Expr) and isinstance(bd[0].value, ast.Call) and isinstance(bd[0].value.func, ast.Attribute)
+                and isinstance(bd[0].value.func.value, ast.Name) and bd[0].value.func.value.id == "self" and bd[0].value.args
+                and isinstance(bd[0].value.args[0], ast.Name)):
+            raise Untranslatable("%s: branch %r is not a single self._make_xxx(<parameters>, ..)" % (what, b.value))
+        call = bd[0].value
+        extra = [ast.unparse(x) for x in call.args[1:]] + ["%s=%s" % (k.arg, ast.unparse(k.value)) for k in call.keywords]
+        if any(e not in ("values", "values=values") for e in extra):
+            raise Untranslatable("%s: branch %r passes %r" % (what, b.value, extra))
+        chain.append((b.value, call.func.attr) + whose(call.args[0].id, "the parameter set given to %s" % call.func.attr))
+        if len(cur.orelse) == 1 and isinstance(cur.orelse[0], ast.If):
+            cur = cur.orelse[0]
+        else:
+            if not (len(_strip(cur.orelse)) == 1 and isinstance(_strip(cur.orelse)[0], ast.Raise)):
+                raise Untranslatable("%s: the dispatch chain does not end in `else: raise`" % what)
+            break
+    if len(set(c[0] for c in chain)) != len(chain):
+        raise Untranslatable("%s: a type string is tested twice" % what)
+    return chain
+
+
+def sd_init(repo):
+    """SpectralDensity.__init__: the loop over the parameter sets"""
+    fn = _src_of(repo + SD, "SpectralDensity.__init__")
+    if [a.arg for a in fn.args.args] != ["self", "axis", "params", "values"]:
+        raise Untranslatable("SpectralDensity.__init__: signature")
+    top = [s for s in _strip(fn.body) if isinstance(s, ast.If)]
+    if len(top) != 1 or ast.unparse(top[0].test) != "axis is not None and params is not None" or top[0].orelse:
+        raise Untranslatable("SpectralDensity.__init__: the block `if (axis is not None) and (params is not None)`")
+    blk = _strip(top[0].body)
+    loops = [s for s in blk if isinstance(s, ast.For) and ast.unparse(s.iter) == "p2calc"]
+    if len(loops) != 1 or not isinstance(loops[0].target, ast.Name) or loops[0].target.id != "params" or loops[0].orelse:
+        raise Untranslatable("SpectralDensity.__init__: the loop `for params in p2calc`")
+    k = blk.index(loops[0])
+    before = [ast.unparse(x) for x in blk[:k]]
+    for need in ("self.lamb = 0.0", "self.temperature = -1.0", "self.params = []"):
+        if before.count(need) != 1:
+            raise Untranslatable("SpectralDensity.__init__: `%s` before the loop" % need)
+    if blk[k + 1:]:
+        raise Untranslatable("SpectralDensity.__init__: statements after the loop")
+    body = _strip(loops[0].body)
+    if len(body) != 4:
+        raise Untranslatable("SpectralDensity.__init__: the loop body has %d statements (conversion, temperature, dispatch, append expected)" % len(body))
+    unify(ast.parse(T_SD_TRY).body[0], body[0], {}, "SpectralDensity.__init__ conversion")
+    unify(ast.parse(T_SD_TEMP).body[0], body[1], {}, "SpectralDensity.__init__ temperature")
+    if not isinstance(body[2], ast.If):
+        raise Untranslatable("SpectralDensity.__init__: dispatch")
+    chain = dispatch_chain(body[2], {"prms": "converted", "params": "raw"}, None, "SpectralDensity.__init__")
+    if ast.unparse(body[3]) != "self.params.append(prms)":
+        raise Untranslatable("SpectralDensity.__init__: last statement of the loop is %s" % ast.unparse(body[3])[:60])
+    # the early return for given values sits before the loop and is not modelled; nothing else appends parameter sets
+    if sum(1 for n in ast.walk(fn) if isinstance(n, ast.Call) and ast.unparse(n.func) == "self.params.append") != 1:
+        raise Untranslatable("SpectralDensity.__init__: parameter sets are appended elsewhere")
+    return chain
+
+
+def sd_maker(path, name, form="converted"):
+    """bookkeeping of a spectral-density maker: (lamb expression, data expression)"""
+    fn = _src_of(path, "SpectralDensity." + name)
+    what = "SpectralDensity." + name
+    args = [a.arg for a in fn.args.args]
+    if args[:2] != ["self", "params"] or args[2:] not in ([], ["values"]):
+        raise Untranslatable("%s: signature %r" % (what, args))
+    calls = [n for n in ast.walk(fn) if isinstance(n, ast.Call) and ast.unparse(n.func) in ("self._add_me", "self._make_me")]
+    kinds = set(ast.unparse(n.func) for n in calls)
+    for n in calls:
+        if len(n.args) != 2 or ast.unparse(n.args[0]) != "self.axis" or n.keywords:
+            raise Untranslatable("%s: %s" % (what, ast.unparse(n)[:60]))
+    top = _strip(fn.body)
+    single = [s for s in top if isinstance(s, ast.Expr) and s.value in calls]
+    branch = [s for s in top if isinstance(s, ast.If) and ast.unparse(s.test) == "values is not None" and len(_strip(s.body)) == 1
+              and len(_strip(s.orelse)) == 1 and isinstance(_strip(s.body)[0], ast.Expr) and _strip(s.body)[0].value in calls
+              and isinstance(_strip(s.orelse)[0], ast.Expr) and _strip(s.orelse)[0].value in calls]
+    if len(kinds) != 1:
+        raise Untranslatable("%s: the data are both set and added (%s)" % (what, sorted(kinds)))
+    if kinds == {"self._add_me"}:
+        # added: exactly once on every path
+        if not ((len(calls) == 1 and len(single) == 1) or (len(calls) == 2 and len(branch) == 1)):
+            raise Untranslatable("%s: the data are not added exactly once (%d calls)" % (what, len(calls)))
+        data = "(data o + d)"
+    else:
+        # set (overwritten): whatever was there before is lost, the last _make_me of the path decides
+        vb = [s for s in top if isinstance(s, ast.If) and ast.unparse(s.test) == "values is not None"]
+        if not (single or (len(vb) == 1 and any(c in ast.walk(vb[0]) for c in calls))):
+            raise Untranslatable("%s: _make_me is not called on every path" % what)
+        data = "d"
+    lam = [n for n in ast.walk(fn) if isinstance(n, (ast.Assign, ast.AugAssign))
+           and any(ast.unparse(t) == "self.lamb" for t in (n.targets if isinstance(n, ast.Assign) else [n.target]))]
+    if len(lam) != 1 or lam[0] not in top:
+        raise Untranslatable("%s: self.lamb is not updated exactly once at the top level" % what)
+    v = lam[0].value
+    if isinstance(v, ast.Name):
+        b = [s for s in top if isinstance(s, ast.Assign) and any(isinstance(t, ast.Name) and t.id == v.id for t in s.targets)]
+        nb = sum(1 for n in ast.walk(fn) if isinstance(n, ast.Name) and n.id == v.id and isinstance(n.ctx, ast.Store))
+        if len(b) != 1 or nb != 1:
+            raise Untranslatable("%s: %s is not bound exactly once" % (what, v.id))
+        v = b[0].value
+    if ast.unparse(v) not in ("params['reorg']",):
+        raise Untranslatable("%s: the reorganisation energy added is %s" % (what, ast.unparse(v)))
+    lsrc = "clam c" if form == "converted" else "lraw c"          # a raw parameter set carries the declared units
+    if isinstance(lam[0], ast.AugAssign):
+        if not isinstance(lam[0].op, ast.Add):
+            raise Untranslatable("%s: %s" % (what, ast.unparse(lam[0])))
+        lamb = "(lamb o + %s)" % lsrc
+    else:
+        lamb = "(%s)" % lsrc
+    for n in ast.walk(fn):
+        if isinstance(n, ast.Name) and n.id == "params" and not isinstance(n.ctx, ast.Load):
+            raise Untranslatable("%s: params is rebound" % what)
+        if isinstance(n, ast.Call) and isinstance(n.func, ast.Attribute) and isinstance(n.func.value, ast.Name) and n.func.value.id == "params" \
+                and n.func.attr != "keys":
+            raise Untranslatable("%s: params.%s(..)" % (what, n.func.attr))
+        if isinstance(n, ast.Subscript) and isinstance(n.value, ast.Name) and n.value.id == "params" and not isinstance(n.ctx, ast.Load):
+            raise Untranslatable("%s: params is written" % what)
+    st = sorted(set(stores_of(fn)))
+    if not set(st) <= {"lamb", "lim_omega"}:
+        raise Untranslatable("%s: writes %r of self" % (what, st))
+    return lamb, data
 
 
 def cf_init(repo):
@@ -428,6 +588,7 @@ Import ListNotations.
 Section Gen09.
 Context {R : StarRing}.
 Variable gen : nat -> @comp R -> R.
+Variable lraw : @comp R -> R.      (* reorganisation energy of a component in the units in which it was declared *)
 Open Scope sr_scope.
 Notation cf := (@cf R).
 Notation comp := (@comp R).
@@ -463,6 +624,10 @@ Proof. reflexivity. Qed.
 Definition g_raw_form : list (string * bool) := [%(forms)s]%%string.
 Lemma g_raw_form_is_expected : g_raw_form = expected_raw_form.
 Proof. reflexivity. Qed.
+(* a maker that receives the component as submitted converts the reorganisation energy itself; the others read it converted *)
+Definition g_lamb_converted_in_maker : list (string * bool) := [%(lforms)s]%%string.
+Lemma g_lamb_units_consistent : g_lamb_converted_in_maker = g_raw_form.
+Proof. reflexivity. Qed.
 Lemma g_ctor_is_model cs : known %(nfam)d%%nat cs -> g_ctor cs = ctor gen OwnFtype cs.
 Proof.
   apply (ctor_skel_is_model gen %(nfam)d%%nat); try reflexivity.
@@ -491,6 +656,31 @@ Proof. unfold g_sd_atd. apply sd_atd_skel_is_model; reflexivity. Qed.
 Definition g_sd_iadd (x y : cf) : cf := sd_atd_skel x %(s2_d)s %(s2_l)s %(s2_ps)s.
 Lemma g_sd_iadd_is_model x y : g_sd_iadd x y = sd_add_to_data x y.
 Proof. unfold g_sd_iadd. apply sd_atd_skel_is_model; reflexivity. Qed.
+(* SpectralDensity.__init__: per component  temperature := T; the maker's bookkeeping; append of the converted set.
+   Additive families: %(sd_tied)s; CP29 as it is (pinned: overwrites); Value-defined is not part of a lemma
+   (its maker's signature does not take the parameter set: that branch raises) *)
+%(sd_makers)s
+Definition g_sd_step (f : nat) (o : cf) (c : comp) (d : R) : cf :=
+  let o1 := mkCf (comps o) (lamb o) (Some (ctemp c)) (cutoff o) (data o) in
+  let o2 := match f with
+%(sd_cases)s            | _ => o1
+            end in
+  mkCf (comps o2 ++ [c]) (lamb o2) (temp o2) (cutoff o2) (data o2).
+Definition g_sd_ctor : list comp -> option cf := sd_ctor_skel gen 0 0 (fun c => ftype c) g_sd_step.
+Definition g_sd_dispatch : list (string * string) := [%(sd_dispatch)s]%%string.
+Lemma g_sd_dispatch_is_expected : g_sd_dispatch = expected_sd_dispatch.
+Proof. reflexivity. Qed.
+Definition g_sd_raw_form : list (string * bool) := [%(sd_forms)s]%%string.
+Lemma g_sd_raw_form_is_expected : g_sd_raw_form = expected_sd_raw_form.
+Proof. reflexivity. Qed.
+Lemma g_sd_ctor_is_model cs : tied [%(sd_idx)s] cs -> g_sd_ctor cs = sd_ctor gen cs.
+Proof.
+  apply (sd_ctor_skel_is_model gen [%(sd_idx)s]); try reflexivity.
+  intros f o c d Hf. cbn [In] in Hf. repeat (destruct Hf as [<-|Hf]; [reflexivity|]). destruct Hf.
+Qed.
+(* CP29 as the code has it now (known finding): raw parameter set, data and reorganisation energy overwritten *)
+Lemma g_sd_cp29_is_pinned_overwrite o c d : g_sd_step %(cp29_idx)s o c d = sd_make_one_cp29_pinned lraw o c d.
+Proof. reflexivity. Qed.
 Definition g_sd_add (sdctor : list comp -> option cf) (x y : cf) : option cf :=
   match sdctor %(sadd_src)s with Some f => Some (g_sd_atd f %(sadd_rhs)s) | None => None end.
 Lemma g_sd_add_is_model sdctor x y : g_sd_add sdctor x y = sd_add sdctor x y.
@@ -532,13 +722,16 @@ def static(repo):
     what.append("correlationfunctions.py:CorrelationFunction.__init__ (initial fields, parameter loop, dispatch loop)")
     # ---- makers
     mk, cases = [], []
+    lforms = []
     for k, (s, m, a, f) in enumerate(chain):
-        upd, tsrc = maker(cfp, "CorrelationFunction", m)
+        upd, tsrc, lconv = maker(cfp, "CorrelationFunction", m)
+        lforms.append((s, lconv))
         mk.append("Definition g_make_%d (o : cf) (c : comp) (d : R) : option cf :=   (* %s *)\n"
                   "  g_settc (mkCf (comps o) %s (temp o) (cutoff o) (data o + d)) %s (ccut c).\n" % (k, m, upd, tsrc))
         cases.append("  | %d%%nat => g_make_%d\n" % (k, k))
         what.append("correlationfunctions.py:CorrelationFunction.%s (bookkeeping)" % m)
     out["makers"], out["make_cases"] = "".join(mk), "".join(cases)
+    out["lforms"] = "; ".join('("%s", %s)' % (s, "true" if b else "false") for s, b in sorted(lforms))
     # ---- add_to_data, add_to_data2, __add__, __iadd__
     who = {"self": "x", "other": "y", "ocor": "y"}
     env = tmatch(_src_of(cfp, "CorrelationFunction.add_to_data"), variants(T_ATD), "add_to_data")
@@ -568,6 +761,35 @@ def static(repo):
         raise Untranslatable("SpectralDensity.__add__: adds %s" % ast.unparse(env["H_rhs"]))
     out["sadd_rhs"] = {"self": "x", "other": "y"}[env["H_rhs"].id]
     tmatch(_src_of(sdp, "SpectralDensity.__iadd__"), [T_IADD], "SpectralDensity.__iadd__")
+    # ---- SpectralDensity.__init__ and the makers of the tied families
+    sdchain = sd_init(repo)
+    smk, scases, sidx = [], [], []
+    cp29_idx = None
+    for k, (s_, m, a, f) in enumerate(sdchain):
+        if a != "own":
+            raise Untranslatable("SpectralDensity.__init__: %s receives a parameter set of another component" % m)
+        if s_ in SD_TIED or s_ in SD_PINNED:
+            lam_, dat_ = sd_maker(sdp, m, f)
+            if s_ in SD_TIED:
+                sidx.append(k)
+            else:
+                cp29_idx = k
+            what.append("spectraldensities.py:SpectralDensity.%s (bookkeeping%s)" % (m, "" if s_ in SD_TIED else ", as it is: known finding"))
+        else:
+            lam_, dat_ = "(lamb o)", "(data o)"        # not part of a lemma
+        smk.append("Definition g_sd_make_%d (o : cf) (c : comp) (d : R) : cf :=   (* %s%s *)\n"
+                   "  mkCf (comps o) %s (temp o) (cutoff o) %s.\n" % (k, m, "" if s_ in SD_TIED + SD_PINNED else ", not in a lemma", lam_, dat_))
+        scases.append("            | %d%%nat => g_sd_make_%d o1 c d\n" % (k, k))
+    if cp29_idx is None:
+        raise Untranslatable("SpectralDensity.__init__: CP29 is not dispatched")
+    if sorted(s_ for s_, _, _, _ in sdchain if s_ in SD_TIED) != sorted(SD_TIED):
+        raise Untranslatable("SpectralDensity.__init__: the tied families %r are not all dispatched" % (SD_TIED,))
+    out.update(sd_makers="".join(smk), sd_cases="".join(scases), sd_idx="; ".join("%d%%nat" % k for k in sidx),
+               sd_tied=", ".join(SD_TIED),
+               sd_dispatch="; ".join('("%s", "%s")' % (s_, m) for s_, m, _, _ in sorted(sdchain)),
+               sd_forms="; ".join('("%s", %s)' % (s_, "true" if f == "raw" else "false") for s_, m, _, f in sorted(sdchain)),
+               cp29_idx="%d%%nat" % cp29_idx)
+    what.append("spectraldensities.py:SpectralDensity.__init__ (loop: conversion, temperature, dispatch, append)")
     what += ["spectraldensities.py:SpectralDensity." + n for n in ("add_to_data", "add_to_data2", "__add__", "__iadd__")]
     return CF_FILE % out, what
 
